@@ -130,6 +130,27 @@ func c05Run(c *fw.Ctx, s int, nNodes int, seq []c05Pkt, fault c05Fault) c05Resul
 		return res
 	}
 	defer pub.Close()
+	// a second client holds unreleased QoS 2 publishes with the SAME identifiers the first client is
+	// going to use: identifiers are per session, so nothing the first client does may forward them
+	other, err := nodes[0].MustConnect(kit.ConnectOpts{ClientID: "other-publisher", KeepAlive: 600, Clean: true})
+	if err != nil {
+		c.Inconclusive("connect: " + err.Error())
+		return res
+	}
+	defer other.Close()
+	otherTags := map[string]bool{}
+	for _, p := range seq {
+		if p.Kind == "P2" || p.Kind == "P1" {
+			tag := fmt.Sprintf("other-%d-%d", s, p.ID)
+			otherTags[tag] = true
+			from := other.NumEvents()
+			other.Send(kit.EncPublish("c05/t", []byte(tag), 2, false, false, p.ID))
+			if _, _, err := other.WaitFor(from, kit.DefaultWait, func(e kit.Event) bool { return e.Pkt.Type == kit.PUBREC && e.Pkt.ID == p.ID }); err != nil {
+				c.Inconclusive(fmt.Sprintf("second client: no PUBREC: %v", err))
+				return res
+			}
+		}
+	}
 	// faults
 	if fault.LocalFailAt > 0 {
 		k := fault.LocalFailAt
@@ -322,6 +343,17 @@ func c05Run(c *fw.Ctx, s int, nNodes int, seq []c05Pkt, fault c05Fault) c05Resul
 			c.Violation(kind, fmt.Sprintf("%s: %s was offered to the log %d time(s), want %d", desc, tag, got[tag], expectedTagAttempts[tag]), wit(map[string]interface{}{"tag": tag, "appends": got[tag], "expected": expectedTagAttempts[tag]}))
 		}
 	}
+	for tag := range otherTags {
+		c.Observe("tags_checked", 1)
+		if got[tag] != 0 {
+			c.Violation("forwarded-other-sessions-pending-publish", fmt.Sprintf("%s: %s, an unreleased QoS 2 publish of ANOTHER session with the same packet identifier, was offered to the log %d time(s)", desc, tag, got[tag]), wit(map[string]interface{}{"tag": tag}))
+		}
+	}
+	for _, e := range other.Events() {
+		if e.Pkt.Type == kit.PUBCOMP {
+			c.Violation("stray-acknowledgement", fmt.Sprintf("%s: the second client received %s for a publish it never released", desc, e.Pkt), wit(nil))
+		}
+	}
 	// (c) no acknowledgement that belongs to no successful forwarding
 	for _, e := range evs {
 		if e.Pkt.Type != kit.PUBACK && e.Pkt.Type != kit.PUBCOMP {
@@ -477,7 +509,7 @@ func c05Reuse(c *fw.Ctx, i int) {
 
 func runC05(c *fw.Ctx) {
 	c.Level = "fault_enumeration"
-	c.Rule = "seeded packet sequences of 3-8 packets from a publisher (PUBLISH QoS 0/1/2 with fresh identifiers, PUBREL for a pending identifier, repeated PUBREL for a completed one, forced handshake-timeout sweep, repeated PUBLISH for a pending identifier as last packet) on 1-3 nodes that all host a matching subscriber; for each sequence EVERY single fault position is run on a fresh cluster: none, the k-th local log write fails for every k up to the number of writes of the fault-free run, each remote node unreachable, each remote node's log rejecting writes (thorough: also local x remote combinations). Observed with one global sequence counter: Append call/return per node, RPC call/return, packets read by the publisher. Oracle: an acknowledgement (PUBACK/PUBCOMP) is read only after a successful Append returned on every node, and never when a write failed; log offers per tag = completed PUBLISH->PUBREL handshakes (0 after PUBLISH alone or after a timed-out handshake, 1 after PUBREL, still 1 after repeated PUBREL). Gated scenarios: no acknowledgement while the log write is blocked. Identifier-reuse scenarios: a second QoS 2 publish reusing a completed handshake's identifier 1.5 s later survives a sweep placed between the two deadlines. distinct = (nodes, sequence, fault); non-trivial = sequence contains a QoS>=1 forwarding"
+	c.Rule = "seeded packet sequences of 3-8 packets from a publisher (PUBLISH QoS 0/1/2 with fresh identifiers, PUBREL for a pending identifier, repeated PUBREL for a completed one, forced handshake-timeout sweep, repeated PUBLISH for a pending identifier as last packet) on 1-3 nodes that all host a matching subscriber, while a second client on the same node holds unreleased QoS 2 publishes with the same packet identifiers; for each sequence EVERY single fault position is run on a fresh cluster: none, the k-th local log write fails for every k up to the number of writes of the fault-free run, each remote node unreachable, each remote node's log rejecting writes (thorough: also local x remote combinations). Observed with one global sequence counter: Append call/return per node, RPC call/return, packets read by the publisher. Oracle: an acknowledgement (PUBACK/PUBCOMP) is read only after a successful Append returned on every node, and never when a write failed; log offers per tag = completed PUBLISH->PUBREL handshakes (0 after PUBLISH alone or after a timed-out handshake, 1 after PUBREL, still 1 after repeated PUBREL). Gated scenarios: no acknowledgement while the log write is blocked. Identifier-reuse scenarios: a second QoS 2 publish reusing a completed handshake's identifier 1.5 s later survives a sweep placed between the two deadlines. distinct = (nodes, sequence, fault); non-trivial = sequence contains a QoS>=1 forwarding"
 	c.Assume("every node hosts a matching subscription known to the publisher's node (gossip barrier)")
 	c.Assume("a session dropped by the broker after a repeated PUBLISH for a pending identifier is accepted; nothing may be forwarded for it")
 	nSeq := c.Pick(36, 500)
